@@ -242,7 +242,7 @@ pub fn gen(run: &mut Run, out_dir: &str) {
     let mut rng = run.rng("gen");
     let n_graphs = run.tier.scale(40, 240);
     let chunk = run.tier.scale(5, 15);
-    let header = "import Mathlib.Tactic.Ring\nset_option maxRecDepth 100000\nset_option linter.unusedVariables false\nset_option linter.unusedTactic false\nnamespace CCV.Generated.C01\n\n";
+    let header = "import Mathlib.Tactic.Ring\nimport Mathlib.Data.UInt\nopen scoped UInt64.CommRing\nset_option maxRecDepth 100000\nset_option linter.unusedVariables false\nset_option linter.unusedTactic false\nnamespace CCV.Generated.C01\n\n";
     let mut files: Vec<String> = vec![];
     let mut cur = String::new();
     let mut in_cur = 0;
@@ -251,7 +251,11 @@ pub fn gen(run: &mut Run, out_dir: &str) {
     let mut attempts = 0;
     while k < n_graphs && attempts < n_graphs * 30 {
         attempts += 1;
-        let prog = gen_aprog(&mut rng, 5, false);
+        let mut prog = gen_aprog(&mut rng, 5, false);
+        if rng.chance(1, 2) {
+            // 64-bit programs additionally get the translator cross-check against one real evaluation
+            prog.st = if rng.chance(1, 2) { UINT64 } else { INT64 };
+        }
         if prog.st == BIT && prog.ops.iter().any(|o| matches!(o, AOp::Const(_))) {
             continue;
         }
@@ -322,7 +326,19 @@ pub fn gen(run: &mut Run, out_dir: &str) {
         }
         let cfg = config_name(&ins, &outs, mode);
         writeln!(cur, "/-- {} ; {} ; compiled graph: {} nodes -/", prog.describe(), cfg, ir.len()).unwrap();
-        writeln!(cur, "theorem p{} {{R : Type}} [CommRing R] (inp : Nat → R) (sh : Nat → Nat → R) (prf : Nat → Nat → R) (rnd : Nat → R) :\n  (\n{}  {}) = (\n{}  s{}) := by\n  intros; ring\n", k, clets, cexpr, slets, prog.ops.len() - 1).unwrap();
+        writeln!(cur, "def p{}_lhs {{R : Type}} [CommRing R] (inp : Nat → R) (sh : Nat → Nat → R) (prf : Nat → Nat → R) (rnd : Nat → R) : R :=\n{}  {}", k, clets, cexpr).unwrap();
+        writeln!(cur, "theorem p{} {{R : Type}} [CommRing R] (inp : Nat → R) (sh : Nat → Nat → R) (prf : Nat → Nat → R) (rnd : Nat → R) :\n  p{}_lhs inp sh prf rnd = (\n{}  s{}) := by\n  unfold p{}_lhs; intros; ring\n", k, k, slets, prog.ops.len() - 1, k).unwrap();
+        // cross-check of the translator against the real evaluator: for 64-bit programs the let-chain,
+        // instantiated in UInt64 with the input shares and PRF outputs of one real evaluation, must
+        // evaluate (in the kernel) to the value the real evaluator revealed
+        if matches!(prog.st, UINT64 | INT64) {
+            if let Some(line) = sample_check(&mut rng, &cc, &ir, out, &ins, &outs, &prog, k) {
+                cur += &line;
+                obligations.push(serde_json::json!({"name": format!("CCV.Generated.C01.p{}_sample", k),
+                    "says": "translator cross-check: the let-chain instantiated in UInt64 with the inputs, shares and PRF outputs of one real evaluation of this compiled graph equals the value the real evaluator revealed (element 0)"}));
+                run.count("gen:sample-cross-checks");
+            }
+        }
         obligations.push(serde_json::json!({"name": format!("CCV.Generated.C01.p{}", k),
             "says": format!("compiled graph of [{}] {} ({} nodes) reveals the source polynomial, in every commutative ring, for all inputs / shares / PRF outputs", prog.describe(), cfg, ir.len())}));
         run.count(&format!("gen:type:{}", crate::vals::st_name(prog.st)));
@@ -347,4 +363,58 @@ pub fn gen(run: &mut Run, out_dir: &str) {
     std::fs::write(format!("{}/C01.lean", out_dir), imports).expect("write");
     std::fs::write(format!("{}/C01_obligations.json", out_dir), serde_json::to_string_pretty(&obligations).unwrap()).expect("write");
     println!("generated {} ring obligations in {} files ({} attempts)", k, files.len(), attempts);
+}
+
+
+fn at0(v: &Value, t: &Type) -> Option<u64> {
+    match t {
+        Type::Scalar(st) => v.to_u64(*st).ok(),
+        Type::Array(_, _) => v.to_flattened_array_u64(t.clone()).ok().and_then(|a| a.first().cloned()),
+        _ => None,
+    }
+}
+
+/// one real evaluation of the compiled graph; returns a Lean theorem stating that the let-chain evaluates to the
+/// revealed value in UInt64 (flat element 0 of every array)
+fn sample_check(rng: &mut Rng, cc: &ciphercore_base::graphs::Context, ir: &[IrNode], out: u64, ins: &[IOStatus], outs: &[IOStatus], prog: &AProg, k: usize) -> Option<String> {
+    let t = prog.ty();
+    let n_in = prog.n_inputs();
+    let types: Vec<Type> = vec![t.clone(); n_in];
+    let inputs = gen_inputs_for(rng, &types);
+    let mut prng = PRNG::new(Some(rng.seed16())).ok()?;
+    let gin = global_inputs(ins, &types, &inputs, &mut prng).ok()?;
+    let vals = catch(|| global_run(cc, gin.clone(), rng.seed16())).ok()?.ok()?;
+    // inputs / shares
+    let mut inp_cases = vec![];
+    let mut sh_cases = vec![];
+    for i in 0..n_in {
+        if matches!(ins[i], IOStatus::Shared) {
+            let parts = gin[i].to_vector().ok()?;
+            for j in 0..3 {
+                sh_cases.push(format!("if i = {} ∧ j = {} then {} else", i, j, at0(&parts[j], &t)?));
+            }
+        } else {
+            inp_cases.push(format!("if i = {} then {} else", i, at0(&gin[i], &t)?));
+        }
+    }
+    // PRF outputs by (key node, counter)
+    let mut prf_cases = vec![];
+    let mut seen = std::collections::HashSet::new();
+    for (i, n) in ir.iter().enumerate() {
+        if let Operation::PRF(iv, pt) = &n.op {
+            let mut kn = n.deps[0] as usize;
+            while let Operation::NOP = ir[kn].op {
+                kn = ir[kn].deps[0] as usize;
+            }
+            if seen.insert((kn, *iv)) {
+                prf_cases.push(format!("if k = {} ∧ iv = {} then {} else", kn, iv, at0(&vals[i], pt)?));
+            }
+        }
+    }
+    let revealed = reveal_if_shared(vals[out as usize].clone(), &t, outs).ok()?;
+    let want = at0(&revealed, &t)?;
+    Some(format!(
+        "theorem p{}_sample : p{}_lhs (R := UInt64) (fun i => {} 0) (fun i j => {} 0) (fun k iv => {} 0) (fun _ => 0) = {} := by decide\n\n",
+        k, k, inp_cases.join(" "), sh_cases.join(" "), prf_cases.join(" "), want
+    ))
 }
